@@ -38,7 +38,7 @@ def g_project(draw):
     sigma = ubm["variances"] * np.exp(r.uniform(-1, 1, (C, F)))
     items = [gen.fractional_stats(draw, C, F, ubm["means"], ubm["variances"], r=r, zero_prob=gen.choice(draw, [0.0, 0.3]))
              for _ in range(gen.integer(draw, 1, 4))]
-    c = {"ubm": ubm, "T": T, "sigma": sigma, "items": items, "stats_layout": gen.choice(draw, ["C", "C", "F", "strided"])}
+    c = {"ubm": ubm, "T": T, "sigma": sigma, "items": items, "stats_layout": gen.choice(draw, ["C", "C", "F", "strided", "lazy"])}
     # the machine's training floor: default, or a value above some / all of the covariances it currently holds
     c["variance_floor"] = float(gen.choice(draw, [1e-10, 1e-10, float(np.median(sigma)), 10.0 * float(sigma.max())]))
     if float(scales.min()) >= 3 and gen.choice(draw, [False, True]):
